@@ -216,7 +216,7 @@ class _Lagrangian:
         estimator = None
         if len(redY_unique) == 1:
             logger.debug("redY had single value. Using DummyClassifier")
-            estimator = DummyClassifier(strategy="constant", constant=redY_unique[0])
+            estimator = DummyClassifier(strategy="constant", constant=redY_unique)
             self.n_oracle_calls_dummy_returned += 1
         else:
             # use sklearn.base.clone to clone the estimator.
